@@ -195,6 +195,8 @@ def run_direct(rng, n, fns, known_filter=None, gen_kw=None, res=None):
     skipped = 0
     for cid in range(n):
         case = direct.gen_real_case(rng, cid, **gen_kw)
+        # every other case runs with validation switched off (the property does not depend on the flag)
+        case['skip_validation'] = bool(cid % 2 == 1)
         common.note_case('direct', repr(case['chain']), np.ascontiguousarray(case['X'], dtype=float), case['nu'], case['ep'])
         # inputs the estimators themselves reject at fit / plain transform time are not
         # in the property's domain: skipped and counted
@@ -210,7 +212,8 @@ def run_direct(rng, n, fns, known_filter=None, gen_kw=None, res=None):
         for name, fn in fns:
             direct.ANGLE_MAX[0] = 0.0
             try:
-                ok, info = fn(case, rng, kp)
+                with pykoop.config_context(skip_validation=case['skip_validation']):
+                    ok, info = fn(case, rng, kp)
             except Exception as e:  # an exception on a valid input is itself a failing case
                 ok, info = False, dict(what=f'{name}: implementation raised {type(e).__name__}: {e}')
             evals += 1
@@ -269,7 +272,8 @@ def replay_direct(path, extra_tests=None):
         dp.prefit_history(kp, case)
         kp.fit_transformers(case['Xfit'], n_inputs=case['nu'], episode_feature=case['ep'])
         direct.ANGLE_MAX[0] = 0.0
-        ok, info = tests[c['test']](case, rng, kp)
+        with pykoop.config_context(skip_validation=bool(c.get('skip_validation', False))):
+            ok, info = tests[c['test']](case, rng, kp)
     except Exception as e:  # noqa
         ok, info = False, dict(what=f'implementation raised {type(e).__name__}: {e}')
     if not ok and direct.angle_out_of_domain():
